@@ -29,7 +29,7 @@ fn cl(o: &Option<CharacterLength>) -> String {
     match o {
         None => "none".into(),
         Some(CharacterLength::Max) => "max".into(),
-        Some(CharacterLength::IntegerLength { length, unit }) => format!(
+        Some(CharacterLength::IntegerLength { length, unit, .. }) => format!(
             "(len {length} {})",
             match unit { None => "none", Some(CharLengthUnits::Characters) => "Characters", Some(CharLengthUnits::Octets) => "Octets" }
         ),
